@@ -10,27 +10,6 @@ def after {σ} (S : Sys σ) (p : Pars) (y0 : σ) (ops : List Op) : Sim σ := (ru
 def specAfter {σ} (S : Sys σ) (p : Pars) (y0 : σ) (ops : List Op) : Spec σ :=
   (Spec.run S (Spec.init p y0) ops).1
 
-theorem okHist_steadyPos : ∀ (ops : List Op) (h : HSt), okHist h ops = true → ops.all steadyPos = true
-  | [], _, _ => rfl
-  | op :: rest, h, hok => by
-    simp only [okHist] at hok
-    cases hn : h.next op with
-    | none => simp [hn] at hok
-    | some h' =>
-      simp only [hn] at hok
-      simp only [List.all_cons, Bool.and_eq_true]
-      refine ⟨?_, okHist_steadyPos rest h' hok⟩
-      cases op with
-      | steady res =>
-        cases res with
-        | none => rfl
-        | some d =>
-          simp only [HSt.next, Bool.and_eq_true, decide_eq_true_eq] at hn
-          split at hn
-          · rename_i hc; simpa [steadyPos] using hc.2
-          · exact absurd hn (by simp)
-      | _ => rfl
-
 theorem run_snoc {σ} (S : Sys σ) : ∀ (ops : List Op) (s : Sim σ) (op : Op),
     (run S s (ops ++ [op])).1 = (step S (run S s ops).1 op).1 ∧
     (run S s (ops ++ [op])).2 = (run S s ops).2 ++ [(step S (run S s ops).1 op).2]
@@ -47,45 +26,27 @@ theorem specRun_snoc {σ} (S : Sys σ) : ∀ (ops : List Op) (a : Spec σ) (op :
     simp only [List.cons_append, Spec.run]
     exact specRun_snoc S rest _ op
 
-theorem refines_snoc {σ} (S : Sys σ) : ∀ (ops : List Op) (h : HSt) (s : Sim σ) (a : Spec σ) (op : Op),
-    Rel h s a → okHist h (ops ++ [op]) = true →
-    ∃ h1 h2, Rel h1 (run S s ops).1 (Spec.run S a ops).1 ∧ h1.next op = some h2
-  | [], h, s, a, op, r, hok => by
-    simp only [List.nil_append, okHist] at hok
-    cases hn : h.next op with
-    | none => simp [hn] at hok
-    | some h2 => exact ⟨h, h2, r, hn⟩
-  | o :: rest, h, s, a, op, r, hok => by
-    simp only [List.cons_append, okHist] at hok
-    cases hn : h.next o with
-    | none => simp [hn] at hok
-    | some h' =>
-      simp only [hn] at hok
-      exact refines_snoc S rest h' _ _ op (step_refines S r o hn).2 hok
-
 /-- everything the theorems below need about the last call of a history -/
-theorem last_step {σ} (S : Sys σ) (p : Pars) (y0 : σ) (ops : List Op) (op : Op)
-    (hok : okHist HSt.start (ops ++ [op]) = true) :
-    ∃ h1 h2, Rel h1 (after S p y0 ops) (specAfter S p y0 ops) ∧
+theorem last_step {σ} (S : Sys σ) (p : Pars) (y0 : σ) (ops : List Op) (op : Op) :
+    Rel (after S p y0 ops) (specAfter S p y0 ops) ∧
       (step S (after S p y0 ops) op).2 = (Spec.step S (specAfter S p y0 ops) op).2 ∧
-      Rel h2 (after S p y0 (ops ++ [op])) (specAfter S p y0 (ops ++ [op])) ∧
+      Rel (after S p y0 (ops ++ [op])) (specAfter S p y0 (ops ++ [op])) ∧
       after S p y0 (ops ++ [op]) = (step S (after S p y0 ops) op).1 ∧
       specAfter S p y0 (ops ++ [op]) = (Spec.step S (specAfter S p y0 ops) op).1 ∧
       Spec.Axis (specAfter S p y0 ops) := by
-  obtain ⟨h1, h2, r, hn⟩ := refines_snoc S ops HSt.start _ _ _ (Rel.init p y0) hok
-  obtain ⟨he, r'⟩ := step_refines S r _ hn
+  have r := (run_refines S ops _ _ (Rel.init p y0)).2
+  obtain ⟨he, r'⟩ := step_refines S r op
   have hax := Spec.run_axis S ops _ (Spec.Axis.init p y0)
-    (by have := okHist_steadyPos _ _ hok; simp only [List.all_append, Bool.and_eq_true] at this; exact this.1)
-  refine ⟨h1, h2, r, he, ?_, (run_snoc S ops _ _).1, specRun_snoc S ops _ _, hax⟩
+  refine ⟨r, he, ?_, (run_snoc S ops _ _).1, specRun_snoc S ops _ _, hax⟩
   unfold after specAfter
   rw [(run_snoc S ops _ _).1, specRun_snoc]
   exact r'
 
-theorem live_of {σ} {h : HSt} {s : Sim σ} {a : Spec σ} (r : Rel h s a) (hl : s.errors = 0) :
+theorem live_of {σ} {s : Sim σ} {a : Spec σ} (r : Rel s a) (hl : s.errors = 0) :
     a.failed = false := by
   have := r.failed; rw [hl] at this; simpa using this.symm
 
-theorem now_of {σ} {h : HSt} {s : Sim σ} {a : Spec σ} (r : Rel h s a) (T : Rat)
+theorem now_of {σ} {s : Sim σ} {a : Spec σ} (r : Rel s a) (T : Rat)
     (hT : reached? s.segs = .ok T) : T = a.now := by
   have := r.reached; rw [hT] at this; cases this; rfl
 
